@@ -271,3 +271,12 @@ Qed.
 (* the configuration regenerated from the working tree satisfies the side conditions *)
 Theorem faithful_cfg_links : ae_ti faithful_cfg = false /\ ae_ni faithful_cfg = false /\ ae_sb faithful_cfg = false /\ lk_up faithful_cfg = true.
 Proof. vm_compute. repeat split. Qed.
+
+(* a single run that only LOOKS UP a referenced root namespace (--lookup-dir) does not generate its pages: the cross-root links
+   of that run's tree dangle until a run for the other root writes into the same output directory *)
+Theorem links_lookup_only_refuted :
+  match w_site_ok with
+  | r :: _ => page_links_ok faithful_cfg [r] r = false /\ forallb (page_links_ok faithful_cfg w_site_ok) (site_pages w_site_ok) = true
+  | [] => False
+  end.
+Proof. vm_compute. split; reflexivity. Qed.
